@@ -35,6 +35,16 @@ def run(ctx):
             if cmps[k][n] != "[ T F T F T T ]":
                 ctx.violation(kind="predicate-failure", suite="C09-compare-twin", backend=k, predicate="u == twin, hash equal, not < or >",
                               program=progs[i], impl=cmps[k][n])
+    # the twin of a value derived from used (hashed, printed, fully read) intermediates
+    multi = [p for p in progs if len(p) > 1][: (600 if ctx.quick else 8000)]
+    tp = [suites.touched(p) for p in multi]
+    cm2 = core.check_suite(ctx, "C09-compare-twin-used", [("compare", [t, t + [["op", "pickle"]]]) for t in tp], split=True)
+    for k in suites.backends(cm2):
+        for n, t in enumerate(tp):
+            if cm2[k][n].startswith("[") and cm2[k][n] != "[ T F T F T T ]":
+                ctx.violation(kind="predicate-failure", suite="C09-compare-twin-used", backend=k,
+                              predicate="u == twin, hash equal, not < or > (intermediate URLs hashed and read before deriving)",
+                              program=t, impl=cm2[k][n])
     # copy / deepcopy (implementation-level probe)
     probe = core.run_all(ctx, [core.call_line("copy_probe", s) for s in ["http://u:p@h:81/a?b#c", "//:77", "a", ""]], kinds=("py", "c"))
     for k, o in probe.items():
